@@ -270,7 +270,8 @@ func ParseTemplateSource(src []byte, format ast.Format, imported, noParseShow bo
 	// firstText is the first Text node of the current line.
 	var firstText *ast.Text
 
-	// numTokenInLine is the number of non-text tokens in the current line.
+	// numTokenInLine is the number of tokens in the current line, apart from
+	// the text that starts it.
 	var numTokenInLine = 0
 
 	// lastIndex is the index of the last byte of the source.
@@ -340,6 +341,11 @@ func ParseTemplateSource(src []byte, format ast.Format, imported, noParseShow bo
 
 		// Text
 		case tokenText:
+			if text != firstText {
+				// cutSpaces only examines the first text of the line and
+				// the text that follows the line.
+				numTokenInLine++
+			}
 			p.addNode(text)
 			tok = p.next()
 
